@@ -142,7 +142,7 @@ def check_one(c):
             psi = R.psi_ref(am, ph, V)
             kw = {}
             tol = 1e-7 * float(psi.abs().max())
-        ukw = {"unitaries": udict_lib} if mode == "positive" else {}
+        ukw = {"unitaries": udict_lib} if (mode == "positive" or c.get("extras")) else {}      # explicit unitaries= (required for positive states) or the state's own dictionary
         space = st_.generate_hilbert_space()
         ref = U @ psi
         got = R.lib_to_c(UN.rotate_psi(st_, basis, space, **ukw, **kw))
